@@ -75,6 +75,29 @@ def _self_attr_reads(prog: Program, f: Func, seen: Optional[Set[str]] = None) ->
     return out
 
 
+def _read_elsewhere(tcc, store_node: ast.AST, attr: str) -> bool:
+    """Is self.<attr> read (attribute load, getattr/hasattr with the literal name) by any statement of the class
+    other than the one that performs this store?"""
+    own = store_node
+    while own is not None and not isinstance(own, ast.stmt):
+        own = parent(own)
+    for m in list(tcc.methods.values()) + list(tcc.setters.values()):
+        for n in ast.walk(m.node):
+            hit = False
+            if isinstance(n, ast.Attribute) and isinstance(n.ctx, ast.Load) and _mangle(m, n.attr) == attr:
+                hit = True
+            elif isinstance(n, ast.Call) and isinstance(n.func, ast.Name) and n.func.id in ('getattr', 'hasattr') \
+                    and len(n.args) >= 2 and isinstance(n.args[1], ast.Constant) and n.args[1].value == attr:
+                hit = True
+            if hit:
+                st = n
+                while st is not None and not isinstance(st, ast.stmt):
+                    st = parent(st)
+                if st is not own:
+                    return True
+    return False
+
+
 def _mangle(f: Func, attr: str) -> str:
     if attr.startswith('__') and not attr.endswith('__') and f.cls is not None:
         return f'_{f.cls.name.lstrip("_")}{attr}'
@@ -173,10 +196,13 @@ def check_solver_state(prog: Program, rep, rule: str) -> None:
                 a = _mangle(m, n.attr)
                 if a in per_shot_names:
                     rep.ok(rule, tc.where(n), f'{m.qualname} updates per-shot attribute self.{a} (re-derived on entry)')
+                elif not _read_elsewhere(tcc, n, a):
+                    # write-only state (a diagnostic counter): nothing computed can depend on it
+                    rep.ok(rule, tc.where(n), f'{m.qualname} updates self.{a}, which no other statement reads (write-only)')
                 else:
                     rep.fail(rule, tc.path, n.lineno, m.qualname, f'store:{a}',
-                             f'{m.qualname} stores self.{a}, which _init_trajectory does not re-derive: state leaks '
-                             f'from one call into the next')
+                             f'{m.qualname} stores self.{a}, which _init_trajectory does not re-derive and which is read '
+                             f'elsewhere in the solver: state leaks from one call into the next')
     # conditional stores inside _init_trajectory (memoisation)
     me = it.positional[0]
     for n in ast.walk(it.node):
@@ -353,7 +379,8 @@ VARIANTS = [
     Variant('curve-memo', 'break', [(TCF, '        self._curve: List[CurvePoint] = calculate_curve(self._table_data)\n', "        if not hasattr(self, '_curve'):\n            self._curve: List[CurvePoint] = calculate_curve(self._table_data)\n")], 'C10.R2', 'positive control', 'caught'),
     Variant('stability-before-twist', 'break', [(TCF, '        self.stability_coefficient = self.calc_stability_coefficient(shot_info.atmo)\n', ''), (TCF, '        self.look_angle = shot_info.look_angle >> Angular.Radian\n', '        self.muzzle_velocity = shot_info.ammo.get_velocity_for_temp(shot_info.atmo.powder_temp) >> Velocity.FPS\n        self.stability_coefficient = self.calc_stability_coefficient(shot_info.atmo)\n        self.look_angle = shot_info.look_angle >> Angular.Radian\n')], 'C10.R2', 'Miller stability computed from the previous shot\'s twist and bullet dimensions'),
     Variant('zero-angle-skips-init-when-same-shot', 'break', [(TCF, '        self._init_trajectory(shot_info)\n\n        _cZeroFindingAccuracy', '        if getattr(self, "_last_shot", None) is not shot_info:\n            self._init_trajectory(shot_info)\n        self._last_shot = shot_info\n\n        _cZeroFindingAccuracy')], 'C10.R2', 'init skipped for the same shot object: mutated shot fields ignored'),
-    Variant('iteration-counter-on-solver', 'break', [(TCF, '            it += 1\n', '            it += 1\n            self.total_steps = getattr(self, "total_steps", 0) + 1\n')], 'C10.R2', 'state accumulates on the solver'),
+    Variant('step-budget-across-calls', 'break', [(TCF, '            it += 1\n', '            it += 1\n            self.total_steps = getattr(self, "total_steps", 0) + 1\n'), (TCF, '            delta_time = self.calc_step / max(1.0, velocity)\n', '            delta_time = self.calc_step / max(1.0, velocity)\n            if getattr(self, "total_steps", 0) > 5000000:\n                delta_time *= 2\n')], 'C10.R2', 'a long-used calculator coarsens its step'),
+    Variant('twin-write-only-step-counter', 'twin', [(TCF, '            it += 1\n', '            it += 1\n            self.total_steps = getattr(self, "total_steps", 0) + 1\n')], None, 'diagnostic counter nobody reads'),
     Variant('twin-sorted-key-spelling', 'twin', [(CON, 'key=lambda wind: wind.until_distance.raw_value', 'key=lambda w: w.until_distance.raw_value')], None),
     Variant('twin-read-only-property', 'twin', [(TCF, '    def get_calc_step(self, step: float = 0) -> float:', '    @property\n    def config(self) -> Config:\n        return self._config\n\n    def get_calc_step(self, step: float = 0) -> float:')], None),
 ]
